@@ -521,7 +521,7 @@ def eval_case(ctx, case):
 
 # ------------------------------------------------------------------------------------------- workload
 
-FIRSTS = ["", "one", "many words here", '"quoted arg" x', "two  spaces\tand tab here", "a\u00a0b  c   d e", "  lead and trail  "]
+FIRSTS = ["", "one", "many words here", '"quoted arg" x', "two  spaces\tand tab here", "a\u00a0b  c   d e", "  lead and trail  ", " ", "\t", "  \t "]
 REPRESENTATIVE = ["docutils:note", "docutils:admonition", "docutils:image", "docutils:code", "docutils:container", "docutils:figure", "docutils:include", "sphinx:figure-md", "sphinx:code-block", "domain:py:function"]
 
 
